@@ -101,7 +101,7 @@ def gen_plan(wl, fr, idx):
 def settings_at(plan, i, j):
     """Settings (without return_samples) and return_samples applying to signal [i, j]."""
     if plan['entry'] == 'object':
-        s = ref.object_settings(plan['ctor'])
+        s = ref.object_settings_checked(plan['ctor'], 'group')
         rs = s.pop('return_samples')
         return s, rs
     opt = plan.get('options')
